@@ -281,7 +281,7 @@ _ADD = {
     'C07': (' Request path (Flow layer): no_deadlock_partial (the S12 shape is the ONLY stuck state), no_deadlock_below_capacity, s12_deadlock_reachable (for the capacity the source has), s12_is_forever, comes_to_rest_or_s12 (every execution of the program alone is finite and ends quiescent or in S12). Registration (Reg layer): policy_before_data_interleaved over all interleavings of updates and registrations, torn_registration_breaks_it.',
             ' Plus: flowCase flood (S12 reproduced: sender in reqWhenReconnect, lookup in sendRequest), registrationRace, a lookup WAITING when the update parked in a handler arrives, dumpRace (a dump parked while rendering the cache vs an update), stale-detach schedules, a waiting lookup cancelled between handler sections.'),
     'C08': ('', ' Plus: sessions (router and listener object live across calls while named tables change), literal-only regular expressions, routeOverlap (a call held up in the middle of its walk while another is routed).'),
-    'C09': ('', ' Plus: the same vectors through the decoder (four weighted routes in one virtual host).'),
+    'C09': ('', ' Plus: the same vectors through the decoder (four weighted routes in one virtual host), the cached table rendered as JSON before sampling; for every fourth vector the calls alternate strictly with calls served by a second weighted route ([1,1]) of the same table, whose own split is judged too (nothing may be shared between routes); shares below one per cent with a never-picked rule.'),
     'C10': ('', ' Plus: a lookup of an endpoint set / cluster that waits across the sections of a response handler (a response to an older subscription first; cancel at each gap) with the stale-read / ended-early spec.'),
     'C11': ('', ' Plus: listeners with up to 9 filter chains, nested type URLs without authority, literal-only regular expressions; the spec covers the retriable-header extensions of each route.'),
     'C13': ('', ' Plus: nested Any values with empty / authority-less / mangled type URLs.'),
